@@ -192,7 +192,7 @@ func (i *Interp) fmtArg(fr *frame, a Value, verb byte) Value {
 func (i *Interp) sprintf(fr *frame, format Value, args []Value) (Value, []Iface) {
 	f, ok := format.(string)
 	if !ok {
-		return "?", nil
+		return i.sprintfSym(fr, bytesOf(format), args)
 	}
 	var out Value = ""
 	var wrapped []Iface
@@ -235,6 +235,48 @@ func (i *Interp) sprintf(fr *frame, format Value, args []Value) (Value, []Iface)
 		out = strConcat(out, i.fmtArg(fr, a, verb))
 	}
 	return out, wrapped
+}
+
+// sprintfSym handles a format string with symbolic bytes (for example a document member name spliced into
+// the format): the text stays opaque ("?"), but which operands are consumed by which verb - and therefore
+// which errors %w wraps - is computed exactly, forking on every byte that may be a '%', a flag or a verb.
+func (i *Interp) sprintfSym(fr *frame, f []Value, args []Value) (Value, []Iface) {
+	var wrapped []Iface
+	ai := 0
+	isOneOf := func(b Value, set string) bool {
+		for k := 0; k < len(set); k++ {
+			if i.byteEq(b, int64(set[k])) {
+				return true
+			}
+		}
+		return false
+	}
+	for k := 0; k < len(f); k++ {
+		if !i.byteEq(f[k], int64('%')) {
+			continue
+		}
+		k++
+		for k < len(f) && isOneOf(f[k], "+-# 0123456789.*[]") {
+			k++
+		}
+		if k >= len(f) {
+			break
+		}
+		if i.byteEq(f[k], int64('%')) {
+			continue
+		}
+		if ai >= len(args) {
+			continue
+		}
+		a := args[ai]
+		ai++
+		if i.byteEq(f[k], int64('w')) {
+			if e, ok := a.(Iface); ok {
+				wrapped = append(wrapped, e)
+			}
+		}
+	}
+	return "?", wrapped
 }
 
 func (i *Interp) registerStd() {
